@@ -624,6 +624,9 @@ def ctor_cases(tier):
     for gap, byp in (('none', 0.0), ('no_flow', 0.0), ('flow', 0.01), ('flow', 1e-5)):
         out.append(mk(layout='core7', bset='mid', gap=gap, bypass=byp))
     out.append(mk(layout='core7', bset='near', gap='flow', bypass=0.01, user='half'))
+    for gap in ('none', 'no_flow'):
+        out.append(mk(layout='core7', bset='mid', gap=gap, eqT=True))
+        out.append(mk(layout='core7', bset='plain', gap=gap, eqT=True, flow=0.05))
     out.append(mk(layout='core7', bset='near', gap='duct_average', bypass=0.0, user='equal', unit='cm'))
     seen, uniq = set(), []
     for c in out:
@@ -674,7 +677,9 @@ def ctor_scenario(c, user_file):
                # same type, different flows, the lowest not in the first position
                'assign': [['A', rr, pp, {'flowrate': c['flow'] * fi}]
                           for (rr, pp), fi in zip(S.core_positions(2), (1.0, 0.45, 0.8, 0.6, 0.9, 0.7, 0.5))],
-               'power': {'asm': {str(i + 1): P for i in range(7)}}}
+               # c['eqT']: power proportional to flow, i.e. the same estimated outlet temperature everywhere
+               'power': {'asm': {str(i + 1): (dict(P, q=P['q'] * fi) if c.get('eqT') else P) for i, fi in
+                                 enumerate((1.0, 0.45, 0.8, 0.6, 0.9, 0.7, 0.5))}}}
     f = UNITF[c['unit']]
     if c['unit'] != 'm':
         scn['units'] = {'length': c['unit']}
